@@ -64,6 +64,15 @@ def h_entries(eng, names):
         else:
             eng.prove(Eq(rs.magnitude, x * value * Fraction(1000) ** kg), f"reported-symbol-reads-back:{name}")
             eng.prove(ureg.Unit(rsym) == ureg.Unit(name), f"reported-symbol-same-unit:{name}")
+            # ... also inside an expression string (ureg('2 sym'), Quantity('2 sym'))
+            if rsym.isidentifier():
+                try:
+                    re_ = ureg.parse_expression(f"2 {rsym}").to_root_units()
+                    eng.prove(Eq(re_.magnitude, 2 * value * Fraction(1000) ** kg), f"reported-symbol-in-expression:{name}")
+                    rq = ureg.Quantity(f"3 {rsym}").to_root_units()
+                    eng.prove(Eq(rq.magnitude, 3 * value * Fraction(1000) ** kg), f"reported-symbol-in-Quantity-string:{name}")
+                except Exception as ex:  # noqa: BLE001
+                    eng.fail(f"reported-symbol-in-expression-raises:{name}:{rsym}:{type(ex).__name__}", stop=False)
         # the registry-level factor API answers from its own tables: same value
         f, ru = ureg.get_root_units(name)
         eng.prove(Eq(f, value * Fraction(1000) ** kg), f"get_root_units:{name}")
